@@ -60,6 +60,41 @@ PROPS = {
         cases=[('msg', 300, 5000, []), ('leaf', 20, 200, [])],
         oracle='c01',
     ),
+    'C03': dict(
+        title='packed bytes are valid protobuf with the same meaning (encoder interop)',
+        modules=['Pbc.Props.C02', 'Pbc.Lemmas.Elem'],
+        theorems=['Pbc.Props.C02.packMsg_length', 'Pbc.Lemmas.parseScalar_scalarBytes', 'Pbc.Lemmas.scanKey_keyBytes',
+                  'Pbc.Lemmas.scanLen_lenPrefixed', 'Pbc.Lemmas.scalarBytes_scan_varint'],
+        refine=PACK_LEAVES + SIZE_LEAVES + TABLE_LEAVES,
+        cases=[('enc', 300, 5000, [])],
+        oracle='c03', ref=True,
+    ),
+    'C04': dict(
+        title='every valid encoding is accepted and read as the reference reads it',
+        modules=['Pbc.Props.C05', 'Pbc.Props.C11', 'Pbc.Lemmas.Elem'],
+        theorems=['Pbc.Props.C05.pass2_count_le_pass1', 'Pbc.Props.C05.scanLoop_fuel_irrelevant',
+                  'Pbc.Props.C11.only_required_fields_matter', 'Pbc.Lemmas.parseScalar_scalarBytes', 'Pbc.Lemmas.scanKey_keyBytes'],
+        refine=PARSE_LEAVES + TABLE_LEAVES,
+        cases=[('valid', 400, 6000, [])],
+        oracle='c04', ref=True,
+    ),
+    'C09': dict(
+        title='unknown fields survive parse and re-serialise (forward compatibility)',
+        modules=['Pbc.Props.C02', 'Pbc.Lemmas.Elem'],
+        theorems=['Pbc.Props.C02.chunksMsg_flatten', 'Pbc.Props.C02.packMsg_length', 'Pbc.Lemmas.scanKey_keyBytes',
+                  'Pbc.Lemmas.scanLen_lenPrefixed'],
+        refine=['parse_tag_and_wiretype_spec', 'scan_length_prefixed_data_spec', 'scan_varint_spec', 'tag_pack_spec'],
+        cases=[('compat', 300, 5000, [])],
+        oracle='c09', ref=True,
+    ),
+    'C10': dict(
+        title='repeated occurrences of a singular field merge as protobuf prescribes',
+        modules=['Pbc.Props.C11'],
+        theorems=['Pbc.Props.C11.only_required_fields_matter'],
+        refine=PARSE_LEAVES,
+        cases=[('merge', 400, 6000, [])],
+        oracle='c10', ref=True,
+    ),
     'C05': dict(
         title='parsing arbitrary bytes is memory-safe and always terminates',
         modules=['Pbc.Props.C05'],
@@ -192,6 +227,14 @@ def ensure_build():
             state['harness_err'] = r.stderr[-3000:]
             if r.returncode != 0 and os.path.exists(os.path.join(BUILD, 'harness_asan')):
                 os.remove(os.path.join(BUILD, 'harness_asan'))
+            log('building reference harness (libprotobuf)')
+            try:
+                flags = subprocess.check_output(['pkg-config', '--cflags', '--libs', 'protobuf'], text=True).split()
+            except Exception:
+                flags = ['-lprotobuf']
+            r = run(['g++', '-O1', '-std=c++17', '-o', os.path.join(BUILD, 'ref_harness'), os.path.join(VERIF, 'harness', 'ref_harness.cc')] + flags)
+            state['ref_rc'] = r.returncode
+            state['ref_err'] = r.stderr[-1500:]
             state['src_hash'] = src_hash
             lean_hash = tree_hash([os.path.join(LEAN, 'Pbc'), os.path.join(LEAN, 'Drv'), os.path.join(LEAN, 'lakefile.toml'), os.path.join(LEAN, 'Pbc.lean')])
             state.pop('lean_hash', None)
@@ -285,15 +328,15 @@ def grep_forbidden():
 # ----------------------------------------------------------------------------------------------
 # correspondence
 # ----------------------------------------------------------------------------------------------
-def run_cases(pid, kind, seed, n, extra, workdir, isolate=False):
+def run_cases(pid, kind, seed, n, extra, workdir, isolate=False, with_ref=False):
     case = os.path.join(workdir, '%s_%s_%d.case' % (pid, kind, seed))
     r = run([sys.executable, os.path.join(HERE, 'gen_cases.py'), kind, str(seed), str(n), case] + extra)
     if r.returncode != 0:
         raise RuntimeError('gen_cases failed: ' + r.stderr[-1000:])
-    return run_case_file(case, isolate)
+    return run_case_file(case, isolate, with_ref)
 
 
-def run_case_file(case, isolate=False):
+def run_case_file(case, isolate=False, with_ref=False):
     env = dict(os.environ, ASAN_OPTIONS='detect_leaks=1:abort_on_error=0', UBSAN_OPTIONS='print_stacktrace=0')
     cmd = [os.path.join(BUILD, 'harness_asan')] + (['--isolate'] if isolate else []) + [case]
     ri = run(cmd, env=env)
@@ -306,7 +349,11 @@ def run_case_file(case, isolate=False):
     rm = run([os.path.join(LEAN, '.lake', 'build', 'bin', 'pbcdrv'), case])
     model = rm.stdout.split('\n')
     lines = open(case).read().split('\n')
-    return {'case': case, 'lines': lines, 'impl': impl, 'model': model, 'impl_rc': ri.returncode,
+    ref = None
+    if with_ref and os.path.exists(os.path.join(BUILD, 'ref_harness')):
+        rr = run([os.path.join(BUILD, 'ref_harness'), case])
+        ref = rr.stdout.split('\n')
+    return {'case': case, 'lines': lines, 'impl': impl, 'model': model, 'ref': ref, 'impl_rc': ri.returncode,
             'impl_err': ri.stderr[-1500:], 'model_rc': rm.returncode, 'model_err': rm.stderr[-500:]}
 
 
@@ -445,19 +492,19 @@ def main():
             rp = json.load(open(replay))
             case = os.path.join(work, 'replay.case')
             open(case, 'w').write('\n'.join(rp.get('schema', []) + rp.get('ops', [])) + '\n')
-            runs.append(('replay', run_case_file(case)))
+            runs.append(('replay', run_case_file(case, with_ref=P.get('ref', False))))
         else:
             # regression corpus first
             cdir = os.path.join(VERIF, 'corpus', 'regress')
             if os.path.isdir(cdir):
                 for f in sorted(os.listdir(cdir)):
                     if f.endswith('.case') and (f.startswith(pid) or f.startswith('all')):
-                        runs.append(('corpus:' + f, run_case_file(os.path.join(cdir, f))))
+                        runs.append(('corpus:' + f, run_case_file(os.path.join(cdir, f), with_ref=P.get('ref', False))))
             for kind, nq, nt, extra in P['cases']:
                 n = nq if tier == 'quick' else nt
                 seeds = [seed] if tier == 'quick' else [seed, seed + 1000, seed + 2000]
                 for s in seeds:
-                    runs.append(('%s/%d' % (kind, s), run_cases(pid, kind, s, n, extra, work)))
+                    runs.append(('%s/%d' % (kind, s), run_cases(pid, kind, s, n, extra, work, with_ref=P.get('ref', False))))
     for label, res in runs:
         lf = None
         if label.startswith('leaf') and P.get('leaf_filter'):
